@@ -258,7 +258,18 @@ class EvalMixin:
         return [Res(st, self.const(e.value))]
 
     def ev_Name(self, e, st):
-        return [Res(st, self.lookup(st, e.id))]
+        try:
+            return [Res(st, self.lookup(st, e.id))]
+        except Unsupported as ex:
+            # a local variable of the executing function that is not bound on this path: UnboundLocalError (Python semantics);
+            # names that are not locals stay "outside the subset" (the frontend may simply not know them)
+            fn = st.frames.get(st.fid, {}).get("$fn")
+            if not st.spec and fn is not None and isinstance(fn, (ast.FunctionDef, ast.AsyncFunctionDef)) and \
+                    str(ex).startswith(("unresolved name", "unbound local")):
+                from .loopx import assigned_names
+                if e.id in assigned_names(fn.body) and e.id not in [a.arg for a in fn.args.args + fn.args.kwonlyargs + fn.args.posonlyargs]:
+                    return [self.raise_new(st, "UnboundLocalError")]
+            raise
 
     def ev_Tuple(self, e, st):
         if any(isinstance(x, ast.Starred) for x in e.elts):
@@ -637,7 +648,7 @@ class EvalMixin:
             kname, t = part.split("=", 1)
             if kname == "*":
                 default = t
-            elif kt is not None and z3.is_string_value(kt) and kt.as_string() == kname:
+            elif kt is not None and z3.is_string_value(kt) and kt.as_string() == kname.rstrip("?"):
                 return t
         return default
 
@@ -673,6 +684,8 @@ class EvalMixin:
     def getattr(self, st, obj, attr):
         obj = self.concretize(st, obj)
         k = obj.k
+        if k == "none" and not st.spec and attr not in dir(None):
+            return [self.raise_new(st, "AttributeError")]       # 'NoneType' object has no attribute ...
         if k == "module":
             return [Res(st, self.module_global(st, obj.t, attr))]
         if k == "ext":
